@@ -332,13 +332,6 @@ theorem enqueueQ_running (b : Bool) (e : Ev) {s : St} (h : s.status = "running")
 theorem enqueueQ_status (b : Bool) (e : Ev) (s : St) : (enqueueQ b e s).status = s.status := by
   unfold enqueueQ; split <;> rfl
 
-theorem drainLoop_not_running (m : Machine) (u : UEnv) (n : Nat) {s : St} (h : s.status ≠ "running") :
-    drainLoop m u (n + 1) s = if s.queue = [] then s else { s with queue := [] } := by
-  simp only [drainLoop]
-  cases hq : s.queue with
-  | nil => simp
-  | cons q rest => simp [h]
-
 theorem asyncDrain_not_running (m : Machine) (u : UEnv) (n : Nat) {s : St} (h : s.status ≠ "running") :
     asyncDrain m u n s = s := by
   cases n with
@@ -382,7 +375,7 @@ structure HooksStatusOK (h : Hooks) : Prop where
   raise_status : ∀ e s, (h.sndRaise e s).status = s.status
 
 theorem hooksFlagged_statusOK (u : UEnv) (m : Machine) : HooksStatusOK (hooksFlagged u m) :=
-  ⟨enqueueQ_status false, enqueueQ_status false⟩
+  ⟨enqueueQ_status true, enqueueQ_status true⟩
 theorem hooksAsyncStart_statusOK (u : UEnv) (m : Machine) : HooksStatusOK (hooksAsyncStart u m) :=
   ⟨enqueueQ_status false, enqueueQ_status false⟩
 theorem hooksAsync_statusOK (u : UEnv) (m : Machine) : HooksStatusOK (hooksAsync u m) :=
@@ -483,8 +476,8 @@ theorem enterOne_final (h : Hooks) (fl : Flavor) (m : Machine) (ev : Option Stri
 
 /-- what the three engine hooks do with a done event: append it to the queue of a running machine -/
 theorem hooksFlagged_snd_queue (u : UEnv) (m : Machine) (e : Ev) (s : St) :
-    ((hooksFlagged u m).snd e s).queue = s.queue ++ (if s.status = "running" then [⟨e, false⟩] else []) := by
-  show (enqueueQ false e s).queue = _
+    ((hooksFlagged u m).snd e s).queue = s.queue ++ (if s.status = "running" then [⟨e, true⟩] else []) := by
+  show (enqueueQ true e s).queue = _
   unfold enqueueQ; split <;> simp
 theorem hooksAsyncStart_snd_queue (u : UEnv) (m : Machine) (e : Ev) (s : St) :
     ((hooksAsyncStart u m).snd e s).queue = s.queue ++ (if s.status = "running" then [⟨e, false⟩] else []) := by
